@@ -45,7 +45,8 @@ LEVEL_NOTE = ("Model = RxModel/Comb.lean + RxModel/CombHO.lean (merge_all_: grou
 "full iff as a counting rule over the delivered notifications - outer completed and #delivered inner completions = #arrivals; no no-duplicate hypothesis needed; "
 "merge_completes_maxc_state is its state-level reading), concat_map_ordered (the only live inner is the most recently subscribed one) and concat_map_blocks (the explicit "
 "block decomposition of the output). Nothing is partial. Inners that notify inside subscribe are compared on outputs and effect order except the position of their own "
-"unsubscribe (time only). Oracle-only: second-subscriber cases. "
+"unsubscribe (time only). Re-entrant outer emissions (consumer feedback while an inner is inside subscribe) ARE replayed through the machines. Oracle-only: second-subscriber "
+"cases (incl. rx.merge). "
 "Threads are C43.")
 
 OPS = ["merge_all", "merge", "merge", "flat_map", "flat_map_indexed", "concat_map", "rx_merge", "merge"]
